@@ -41,7 +41,9 @@ type factory struct {
 
 var registry = map[string]factory{}
 
-func Register(pkg string, f func() C, ctors map[string]any) { registry[pkg] = factory{new: f, ctor: ctors} }
+func Register(pkg string, f func() C, ctors map[string]any) {
+	registry[pkg] = factory{new: f, ctor: ctors}
+}
 
 type stubEntry struct {
 	typ  reflect.Type
@@ -51,7 +53,9 @@ type stubEntry struct {
 var stubs = map[string]stubEntry{}
 
 // RegisterStub registers a --stub package: its container type and constructor (which must panic).
-func RegisterStub(pkg string, typ reflect.Type, ctor func() any) { stubs[pkg] = stubEntry{typ: typ, ctor: ctor} }
+func RegisterStub(pkg string, typ reflect.Type, ctor func() any) {
+	stubs[pkg] = stubEntry{typ: typ, ctor: ctor}
+}
 
 func typeMethods(t reflect.Type) []any {
 	var out []any
@@ -108,16 +112,16 @@ type Lit struct {
 }
 
 type Op struct {
-	Op   string            `json:"op"`
-	ID   string            `json:"id,omitempty"`
-	Tag  string            `json:"tag,omitempty"`
-	Ctx  int               `json:"ctx,omitempty"`
-	Name string            `json:"name,omitempty"`
-	Val  *Lit              `json:"val,omitempty"`
-	Ctor string            `json:"ctor,omitempty"`
-	Args []json.RawMessage `json:"args,omitempty"` // OverrideService: {"svc":"s1"} | {"t":..,"v":..} | {"param":"p"}
-	Set  map[string]string `json:"set,omitempty"`
-	Unset []string         `json:"unset,omitempty"`
+	Op    string            `json:"op"`
+	ID    string            `json:"id,omitempty"`
+	Tag   string            `json:"tag,omitempty"`
+	Ctx   int               `json:"ctx,omitempty"`
+	Name  string            `json:"name,omitempty"`
+	Val   *Lit              `json:"val,omitempty"`
+	Ctor  string            `json:"ctor,omitempty"`
+	Args  []json.RawMessage `json:"args,omitempty"` // OverrideService: {"svc":"s1"} | {"t":..,"v":..} | {"param":"p"}
+	Set   map[string]string `json:"set,omitempty"`
+	Unset []string          `json:"unset,omitempty"`
 	// concurrency
 	Groups [][]Op `json:"groups,omitempty"`
 	Repeat int    `json:"repeat,omitempty"`
@@ -338,7 +342,9 @@ func (r *runner) par(op Op, d *obj.Describer) map[string]any {
 		events = append(events, e)
 		evMu.Unlock()
 	}
-	obj.Hook = func(kind, name string, serial int64) { emit(map[string]any{"ev": kind, "name": name, "serial": serial}) }
+	obj.Hook = func(kind, name string, serial int64) {
+		emit(map[string]any{"ev": kind, "name": name, "serial": serial})
+	}
 	defer func() { obj.Hook = nil }()
 	var dmu sync.Mutex
 	start := make(chan struct{})
@@ -387,6 +393,9 @@ func runScript(s Script) Result {
 		return res
 	}
 	obj.ResetCounters()
+	for _, k := range []string{"VERIF_E1", "VERIF_E2"} { // every script starts from the same environment
+		os.Unsetenv(k)
+	}
 	r := &runner{f: f, ctxs: map[int]context.Context{}}
 	var initRes map[string]any
 	initRes = guard(func() map[string]any {
